@@ -61,9 +61,12 @@ def execute(sc):
     with World(sc) as w:
         w.build()
         applied = 0
+        applied_kinds = {}
         for m in sc.get('muts', []):
             if w.mutate(m):
                 applied += 1
+                kk = 'storage.' + m['m'] + ('->' + m['k'] if m['m'] in ('retype', 'add') and 'k' in m else '')
+                applied_kinds[kk] = applied_kinds.get(kk, 0) + 1
         if blocking_manifest(w.root):
             seam = Seam(w.root)
             return mk_result([seam], [], False, outcome='skipped: FIFO Manifest', dontcare={'fifo-manifest': 1})
@@ -114,5 +117,9 @@ def execute(sc):
         violations += write_violations(seam, snap0, w.snapshot(), 'verify')
     nontrivial = judged > 0 and (applied > 0 or any(o.get('last_mtime') is not None or o.get('sub') for o in sc.get('ops', [])))
     counters['mutations_applied'] = applied
-    return mk_result([seam], violations, nontrivial, outcome=outcome, dontcare=zones,
-                     counters=counters, ops=len(sc.get('ops', [])))
+    _res_faults = applied_kinds
+    res = mk_result([seam], violations, nontrivial, outcome=outcome, dontcare=zones,
+                    counters=counters, ops=len(sc.get('ops', [])))
+    for k_, v_ in _res_faults.items():
+        res['faults_fired'][k_] = res['faults_fired'].get(k_, 0) + v_
+    return res
